@@ -116,8 +116,80 @@ func filterFamily() []world.FilterSpec {
 }
 
 func randFilter(rng *rand.Rand) world.FilterSpec {
+	if rng.Intn(3) == 0 {
+		return randFilterTerm(rng, 2)
+	}
 	fam := filterFamily()
 	return fam[rng.Intn(len(fam))]
+}
+
+// randFilterTerm draws a filter term of bounded depth: composites with 0..3
+// children, duplicated and reordered alternatives included (an unsound
+// FiltersEqual shows as a Refilter that is wrongly treated as "unchanged").
+func randFilterTerm(rng *rand.Rand, depth int) world.FilterSpec {
+	atoms := []world.FilterSpec{
+		{Op: "labels", K: "app", V: "a"}, {Op: "labels", K: "app", V: "b"},
+		{Op: "labels", K: "tier", V: "x"}, {Op: "labels", K: "tier", V: "y"},
+		{Op: "nsname", K: "n1", V: ""}, {Op: "nsname", K: "n2", V: ""}, {Op: "nsname", K: "n1", V: "a"},
+		{Op: "null"}, {Op: "all"}, {Op: "fn", K: "tier", V: "x"},
+	}
+	if depth <= 0 || rng.Intn(3) == 0 {
+		return atoms[rng.Intn(len(atoms))]
+	}
+	switch rng.Intn(4) {
+	case 0:
+		return world.FilterSpec{Op: "not", Sub: []world.FilterSpec{randFilterTerm(rng, depth-1)}}
+	case 1:
+		op := "and"
+		return world.FilterSpec{Op: op, Sub: randChildren(rng, depth)}
+	default:
+		return world.FilterSpec{Op: "or", Sub: randChildren(rng, depth)}
+	}
+}
+
+func randChildren(rng *rand.Rand, depth int) []world.FilterSpec {
+	n := rng.Intn(4)
+	var cs []world.FilterSpec
+	for i := 0; i < n; i++ {
+		if len(cs) > 0 && rng.Intn(3) == 0 {
+			cs = append(cs, cs[rng.Intn(len(cs))]) // a duplicated alternative
+			continue
+		}
+		cs = append(cs, randFilterTerm(rng, depth-1))
+	}
+	return cs
+}
+
+// relatedFilter derives a filter from f by a small edit (drop / add / swap /
+// duplicate a child): pairs that an order- or multiplicity-insensitive Equals
+// could wrongly identify.
+func relatedFilter(rng *rand.Rand, f world.FilterSpec) world.FilterSpec {
+	if (f.Op != "or" && f.Op != "and") || len(f.Sub) == 0 {
+		return randFilterTerm(rng, 2)
+	}
+	g := world.FilterSpec{Op: f.Op, Sub: append([]world.FilterSpec(nil), f.Sub...)}
+	switch rng.Intn(5) {
+	case 0: // replace one child, same length
+		g.Sub[rng.Intn(len(g.Sub))] = randFilterTerm(rng, 1)
+	case 1: // drop a child
+		i := rng.Intn(len(g.Sub))
+		g.Sub = append(g.Sub[:i:i], g.Sub[i+1:]...)
+	case 2: // add a child
+		g.Sub = append(g.Sub, randFilterTerm(rng, 1))
+	case 3: // reorder
+		rng.Shuffle(len(g.Sub), func(i, j int) { g.Sub[i], g.Sub[j] = g.Sub[j], g.Sub[i] })
+	default: // collapse duplicates / replace a duplicate by something new (same length)
+		for i := range g.Sub {
+			for j := i + 1; j < len(g.Sub); j++ {
+				if g.Sub[i].String() == g.Sub[j].String() {
+					g.Sub[j] = randFilterTerm(rng, 1)
+					return g
+				}
+			}
+		}
+		g.Sub[0], g.Sub[len(g.Sub)-1] = g.Sub[len(g.Sub)-1], g.Sub[0]
+	}
+	return g
 }
 
 func randStrategy(rng *rand.Rand, starveNames []string) detsim.Strategy {
